@@ -133,10 +133,10 @@ func (p *Portfolio) account(r SolveResult) {
 
 // solvePruned: one quick z3-new attempt on a pruned query (cached).
 func (p *Portfolio) solvePruned(query string) SolveResult {
-	return p.solvePrunedT(query, p.prunedMs)
+	return p.solvePrunedT(query, p.prunedMs, false)
 }
 
-func (p *Portfolio) solvePrunedT(query string, ms int) SolveResult {
+func (p *Portfolio) solvePrunedT(query string, ms int, all3 bool) SolveResult {
 	key := ""
 	if p.cacheDir != "" {
 		h := sha256.Sum256([]byte(query))
@@ -150,15 +150,21 @@ func (p *Portfolio) solvePrunedT(query string, ms int) SolveResult {
 		}
 	}
 	// z3 5.1 and z3 4.8 raced: they fail on different queries
-	ch := make(chan SolveResult, 2)
+	// (cvc5 joins for the hypothesis selection given in the contract: it alone decided some
+	// goals with an existential conclusion over an appended list)
+	race := []Solver{solvers[0], solvers[1]}
+	if all3 {
+		race = solvers[:3]
+	}
+	ch := make(chan SolveResult, len(race))
 	rctx, rcancel := context.WithCancel(context.Background())
-	defer rcancel() // kills the loser
-	for _, sv := range []Solver{solvers[0], solvers[1]} {
+	defer rcancel() // kills the losers
+	for _, sv := range race {
 		go func(sv Solver) { ch <- runSolverCtx(rctx, sv, query+"(check-sat)\n", ms, p.seed) }(sv)
 	}
 	r := <-ch
 	p.account(r)
-	if r.Status != "unsat" {
+	for i := 1; i < len(race) && r.Status != "unsat"; i++ {
 		r2 := <-ch
 		p.account(r2)
 		if r2.Status == "unsat" {
@@ -283,7 +289,7 @@ func buildQueries(prelude string, fv *FV, o *Obligation, depths []int) []string 
 	// facts about blocks that are not on a path to this obligation are dropped from every
 	// variant except the last (full) one
 	onPath := lines
-	if o.Expect == "unsat" {
+	if o.Expect == "unsat" && os.Getenv("GOCV_NO_ONPATH") == "" {
 		onPath = onPathOnly(lines, o.Guard)
 		usingLines = onPathOnly(usingLines, o.Guard)
 	}
@@ -340,7 +346,7 @@ func solveAll(p *Portfolio, jobs []*job, workers int) {
 					if pi == 0 && len(j.o.Using) > 0 {
 						ms = p.usingMs // the hypothesis selection given in the contract gets a generous budget
 					}
-					pr := p.solvePrunedT(pq, ms)
+					pr := p.solvePrunedT(pq, ms, pi == 0 && len(j.o.Using) > 0)
 					tried = append(tried, fmt.Sprintf("pruned:%s:%s:%.2fs", pr.Solver, pr.Status, pr.Seconds))
 					if pr.Status == "unsat" {
 						pr.Tried = tried
@@ -387,7 +393,7 @@ func solveAll(p *Portfolio, jobs []*job, workers int) {
 				if pi == 0 && len(j.o.Using) > 0 {
 					ms = p.usingMs
 				}
-				pr := p.solvePrunedT(pq, ms)
+				pr := p.solvePrunedT(pq, ms, pi == 0 && len(j.o.Using) > 0)
 				tried = append(tried, fmt.Sprintf("retry-pruned:%s:%s:%.2fs", pr.Solver, pr.Status, pr.Seconds))
 				if pr.Status == "unsat" {
 					pr.Tried = append(first.Tried, tried...)
